@@ -60,9 +60,10 @@ def Res.orElse {α : Type} (a : Res α) (b : Unit → Res α) : Res α :=
 /-! ## character classes (lexer/mod.rs:202-212) -/
 
 /-- `char::is_ascii_alphabetic` -/
-def isAsciiAlpha (c : Char) : Bool := ('a' ≤ c && c ≤ 'z') || ('A' ≤ c && c ≤ 'Z')
+def isAsciiAlpha (c : Char) : Bool :=
+  (97 ≤ c.toNat && c.toNat ≤ 122) || (65 ≤ c.toNat && c.toNat ≤ 90)
 /-- `char::is_ascii_digit` -/
-def isAsciiDigit (c : Char) : Bool := '0' ≤ c && c ≤ '9'
+def isAsciiDigit (c : Char) : Bool := 48 ≤ c.toNat && c.toNat ≤ 57
 /-- `is_valid_identifier_leading_character` -/
 def isLeading (c : Char) : Bool := isAsciiAlpha c || c == '_'
 /-- `is_valid_identifier_end_character` -/
@@ -70,9 +71,19 @@ def isEnd (c : Char) : Bool := isLeading c || isAsciiDigit c
 /-- `is_dash` -/
 def isDash (c : Char) : Bool := c == '-'
 
+/-- `take_while(p)` / `take_till(!p)` / `is_a`: the maximal prefix satisfying `p`, and the rest
+(`List.span`, written structurally so that proofs can follow it). -/
+def span (p : Char → Bool) : List Char → List Char × List Char
+  | [] => ([], [])
+  | c :: cs =>
+    if p c then
+      let (a, r) := span p cs
+      (c :: a, r)
+    else ([], c :: cs)
+
 /-- `take_while1(p)`: the maximal non-empty prefix satisfying `p`. -/
 def takeWhile1 (p : Char → Bool) (inp : List Char) : Option (List Char × List Char) :=
-  match inp.span p with
+  match span p inp with
   | ([], _) => none
   | (a, r) => some (a, r)
 
@@ -97,7 +108,7 @@ def lexIdentifierRaw (inp : List Char) : Res (List Char) :=
   match takeWhile1 isLeading inp with
   | none => .error
   | some (leading, r1) =>
-    let (middle, r2) := r1.span isEnd
+    let (middle, r2) := span isEnd r1
     let (groups, r3) := dashGroups r2.length r2
     .ok (leading ++ middle ++ groups) r3
 
@@ -119,7 +130,7 @@ def lexVariable : List Char → Res Token
 
 /-- `lex_comment`: `#` then everything up to (not including) the next `\n`. -/
 def lexComment : List Char → Res Token
-  | '#' :: r => let (c, r') := r.span (· != '\n'); .ok (.comment c) r'
+  | '#' :: r => let (c, r') := span (· != '\n') r; .ok (.comment c) r'
   | _ => .error
 
 /-- `recognize_newlines`: `alt((is_a("\n"), is_a("\r\n")))` — a run of `\n`, or else a run of
@@ -167,9 +178,10 @@ def lexString (inp : List Char) : Res Token :=
 
 /-- `char_to_valid_digit_const` for radices > 10 (and equal to it on digits for radices ≤ 10) -/
 def digitOf (c : Char) : Nat :=
-  if '0' ≤ c ∧ c ≤ '9' then c.toNat - 48
-  else if 'A' ≤ c ∧ c ≤ 'Z' then c.toNat - 65 + 10
-  else if 'a' ≤ c ∧ c ≤ 'z' then c.toNat - 97 + 10
+  let n := c.toNat
+  if 48 ≤ n ∧ n ≤ 57 then n - 48            -- '0'..='9'
+  else if 65 ≤ n ∧ n ≤ 90 then n - 65 + 10   -- 'A'..='Z'
+  else if 97 ≤ n ∧ n ≤ 122 then n - 97 + 10  -- 'a'..='z'
   else 255
 
 /-- `char_is_digit_const(c, radix)` for the radices 2, 8, 10, 16 -/
@@ -179,7 +191,7 @@ def isDigitIn (radix : Nat) (c : Char) : Bool := digitOf c < radix
 def isNumChar (radix : Nat) (c : Char) : Bool := c == '_' || isDigitIn radix c
 
 /-- the digit component at the head of the input: maximal run of digits and `_` (see file header) -/
-def numRun (radix : Nat) (inp : List Char) : List Char × List Char := inp.span (isNumChar radix)
+def numRun (radix : Nat) (inp : List Char) : List Char × List Char := span (isNumChar radix) inp
 
 /-- the digits of a run, separators removed, most significant first -/
 def runDigits (run : List Char) : List Nat := (run.filter (· != '_')).map digitOf
@@ -194,7 +206,8 @@ def u64OrFailure (n : Nat) (rest : List Char) : Res Nat :=
   if n < two64 then .ok n rest else .failure
 
 /-- ASCII lower-casing of the prefix letter (`tag_no_case`, `case_sensitive_base_prefix(false)`) -/
-def lowerAscii (c : Char) : Char := if 'A' ≤ c ∧ c ≤ 'Z' then Char.ofNat (c.toNat + 32) else c
+def lowerAscii (c : Char) : Char :=
+  if 65 ≤ c.toNat ∧ c.toNat ≤ 90 then Char.ofNat (c.toNat + 32) else c
 
 /-- `raw_lex_integer::<PREFIX, FORMAT>` for `PREFIX ≠ 0`: `peek(tag_no_case("0p"))` (recoverable), then
 `cut(lex_and_parse_number)`: after the prefix at least one character of the digit run is required
